@@ -4,7 +4,8 @@
 (a) runs the translator on the clean source ($VERIF_REPO, default /repo; only a scratch COPY is ever modified) and checks
     that the output is the current coq/Gen/GroupInitGen.v, compiles, and that the lemma files about it compile against
     it, in dependency order: Lemmas/GroupInitGenLemmas.v, Lemmas/YamlRelLemmas.v (if present),
-    Lemmas/GroupConfigGenLemmas.v;
+    Lemmas/GroupConfigGenLemmas.v, Lemmas/GroupCfgOk.v, Lemmas/FromYamlLemmas.v, Lemmas/AbsIndexLemmas.v,
+    Lemmas/CfgRawVerdict.v, Lemmas/ConfigFromYamlLemmas.v;
 (b) applies small mutations to a scratch copy of the source (utils/command_line/common.py, group_config.py,
     execution_context/transactions.py and fingerprinted helpers) and shows that, for each, either the translator stops
     (TranslateError) or the generated Gallina differs AND one of the lemma files no longer compiles against it;
@@ -37,7 +38,7 @@ FN = "tealer/teal/functions.py"
 ENUM = "tealer/utils/teal_enums.py"
 TEAL = "tealer/teal/teal.py"
 # the lemma files about Gen/GroupInitGen.v, in dependency order (compiled in the scratch directory)
-LEMMA_FILES = ("GroupInitGenLemmas.v", "YamlRelLemmas.v", "GroupConfigGenLemmas.v")
+LEMMA_FILES = ("GroupInitGenLemmas.v", "YamlRelLemmas.v", "GroupConfigGenLemmas.v", "GroupCfgOk.v", "FromYamlLemmas.v", "AbsIndexLemmas.v", "CfgRawVerdict.v", "ConfigFromYamlLemmas.v")
 
 
 def sh(cmd, cwd=None, env=None):
@@ -154,6 +155,15 @@ MUTATIONS = [
     ("(60) contracts loop: contract_functions not reset per contract", COMMON, chain(rep('        contract_functions: Dict[str, "Function"] = {}\n', ""), rep('    contracts: Dict[str, "Teal"] = {}\n', '    contracts: Dict[str, "Teal"] = {}\n    contract_functions: Dict[str, "Function"] = {}\n'))),
     ("(61) InvalidGroupConfiguration defines __str__", CFG, rep("class InvalidGroupConfiguration(Exception):\n    pass\n", "class InvalidGroupConfiguration(Exception):\n    def __str__(self):\n        return \"\"\n")),
     ("(62) Teal.functions setter copies the dict (fingerprint)", TEAL, rep("        self._functions = functions\n", "        self._functions = dict(functions)\n")),
+    # ---- the group readers, for every YAML map (Lemmas/FromYamlLemmas.v) / the view of the absolute index
+    ("(y1) from_yaml: txn_type no longer a required field (KeyError instead)", CFG, rep('check_fields_are_present(["txn_id", "txn_type"], transaction)', 'check_fields_are_present(["txn_id"], transaction)')),
+    ("(y2) from_yaml: offset no longer required in a relative index", CFG, rep('check_fields_are_present(["other_txn_id", "offset"], relative_index)', 'check_fields_are_present(["other_txn_id"], relative_index)')),
+    ("(y3) from_yaml: function of a call read from the key contract", CFG, rep('        function = function_call["function"]\n', '        function = function_call["contract"]\n')),
+    ("(y4) from_yaml: operation no longer a required field of a group", CFG, rep('check_fields_are_present(["operation", "transactions"], group)', 'check_fields_are_present(["transactions"], group)')),
+    ("(y5) from_yaml: logic_sig only parsed when no application is given", CFG, rep("        if logic_sig is not None:\n            logic_sig = GroupConfigFunctionCall.from_yaml(logic_sig)\n", "        if logic_sig is not None and application is None:\n            logic_sig = GroupConfigFunctionCall.from_yaml(logic_sig)\n")),
+    ("(y6) from_yaml: has_logic_sig read from the key logic_sig", CFG, rep('        has_logic_sig = transaction.get("has_logic_sig")\n', '        has_logic_sig = transaction.get("logic_sig")\n')),
+    ("(y7) from_yaml: transactions of a group collected in reverse", CFG, rep("            parsed_transactions.append(GroupConfigTransaction.from_yaml(transaction))\n", "            parsed_transactions.insert(0, GroupConfigTransaction.from_yaml(transaction))\n")),
+    ("(y8) dataclass: absolute_index declared Optional[str]", CFG, rep("    absolute_index: Optional[int] = None\n", "    absolute_index: Optional[str] = None\n")),
     ("(e1) EQUIVALENT: local variable app_function renamed", COMMON, rep("app_function", "the_app_function", 3)),
 ]
 EQUIVALENT = {"(e1) EQUIVALENT: local variable app_function renamed"}
